@@ -535,7 +535,8 @@ class Gen:
     full (H, W, C) / (C,) shape of the result, the others are broadcast along the channel axis (H, W, 1),
     the spatial axes (1, 1, C) (squeeze-and-excite), one spatial axis (H, 1, C) / (1, W, C), every axis
     (1, 1, 1), or are rank-2 gates (1,) x (C,); 2-3 operands, the full operand first / last / in the middle
-    of the Keras call.  Every operand of one merge carries the SAME activation quantizer (energy_estimate
+    of the Keras call; one model in five is a TWO-SIDED broadcast where no operand has the shape of the result
+    ((H,1,C) x (1,W,C), (H,W,1) x (1,1,C): recorded finding C19-merge-two-sided-broadcast).  Every operand of one merge carries the SAME activation quantizer (energy_estimate
     pairs Keras' operand shapes with the graph's edge order, see notes)."""
     K, Q = self.K, self.Q
     aq = self.ch(self.BCAST_AQ)
@@ -560,16 +561,24 @@ class Gen:
       kinds = ["channel", "channel", "channel", "spatial", "row", "col", "scalar"]
     n_small = self.ch([1, 1, 1, 2])
     ops = []
-    for _ in range(n_small):
-      kind = self.ch(kinds)
-      small_kinds.append(kind)
-      ops.append(small(kind))
-    pos = self.ri(0, len(ops))            # where the full operand goes: 0 = first ... len = last
-    ops.insert(pos, full)
+    two_sided = len(kinds) > 1 and self.p(0.2)
+    if two_sided:
+      # NO operand has the shape of the result: (H,1,C) x (1,W,C) or (H,W,1) x (1,1,C), either order
+      small_kinds = list(self.ch([("row", "col"), ("col", "row"), ("channel", "spatial"), ("spatial", "channel")]))
+      ops = [small(k_) for k_ in small_kinds]
+      small_kinds.append("twosided")
+      pos = -1
+    else:
+      for _ in range(n_small):
+        kind = self.ch(kinds)
+        small_kinds.append(kind)
+        ops.append(small(kind))
+      pos = self.ri(0, len(ops))            # where the full operand goes: 0 = first ... len = last
+      ops.insert(pos, full)
     cls = self.ch(["Add", "Add", "Multiply", "Multiply", "Multiply", "Average", "Maximum", "Minimum"])
     y = getattr(K.layers, cls)()(ops)
     self.run.count("gen_merge_bcast_%s_%s_full_%s" % (cls, "+".join(sorted(small_kinds)),
-                                                      "first" if pos == 0 else "last" if pos == len(ops) - 1 else "middle"))
+                                                      "absent" if pos < 0 else "first" if pos == 0 else "last" if pos == len(ops) - 1 else "middle"))
     if self.p(0.5):
       y = Q.QActivation(self.ch(["quantized_relu(6,2)", "quantized_bits(8,2,1)"]))(y)
     if self.p(0.3):
@@ -752,8 +761,13 @@ def count_signature(kind, reported, brute, d):
     return "missing_depth_multiplier"
   if kind == "dense" and d.get("lead", 1) > 1 and d["kernel"] == [1, 1] and reported == d["lead"] ** 2:
     return "max_over_leading_axis"
-  if kind == "merge" and any(_prod(x) < brute and reported == _prod(x) for x in d.get("in_shapes", [])):
-    return "size_of_a_broadcast_operand"
+  if kind == "merge" and d.get("in_shapes"):
+    sizes = [_prod(x) for x in d["in_shapes"]]
+    if max(sizes) < brute and reported == max(sizes):
+      # no operand has the shape of the result and the LARGEST operand was counted
+      return "largest_operand_of_two_sided_broadcast"
+    if any(z < brute and reported == z for z in sizes):
+      return "size_of_a_broadcast_operand"
   if kind in ("sepconv2d", "sepconv1d"):
     dk, pk = d["kernel"], d["pointwise"]
     dwpart = d["positions"] * _prod(dk)
@@ -1351,6 +1365,8 @@ def run(run: core.Run, tier: str):
           run.case(("count_edge_order", mname, lyr.name, order), nontrivial=bcast)
           sig = count_signature("merge", reported, orc[1], orc[2])
           run.count("count_edge_order_%s_%s_%s" % ("broadcast" if bcast else "same_shape", order, sig))
+          if sig == "largest_operand_of_two_sided_broadcast":
+            continue      # recorded finding, reported (with the model tie) by the main count stream
           if sig != "ok":
             run.violate("operation_count_is_mac_count",
                         {"stream": "count_edge_order", "class": lyr.__class__.__name__, "signature": sig,
